@@ -134,9 +134,9 @@ example : ∀ t, (progsAB t).Serves 1 := by
   intro t
   unfold progsAB
   split
-  · exact served_requests_serve 1 [reqA] (by simp [reqA, Req.LocalTo, HOp.isLocal])
+  · exact served_requests_serve 1 [reqA] (by simp [reqA, Req.LocalTo, HOp.isLocal, Outcome.LocalTo])
   · split
-    · exact served_requests_serve 1 [reqB] (by simp [reqB, Req.LocalTo, HOp.isLocal])
+    · exact served_requests_serve 1 [reqB] (by simp [reqB, Req.LocalTo, HOp.isLocal, Outcome.LocalTo])
     · exact Prog.Serves.done
 
 /-- strict alternation of the two threads, 150 steps each -/
